@@ -354,7 +354,7 @@ def solve(ob, timeout_ms=10000, axioms=(), use_cvc5=True, extra_hyps=()):
         if r == z3.unknown:
             # retry with other seeds (quantifier instantiation order is seed dependent); verdicts never flip
             # between sat and unsat, only unknown may become decided
-            for seed in (11, 23):
+            for seed in (11,):
                 s2 = z3.Solver()
                 s2.set("timeout", timeout_ms)
                 s2.set("random_seed", seed)
